@@ -61,6 +61,15 @@ def h_node_setErr : Nat := 0x35428438b603832d
 /-- hash of the normalised skeleton of setStatus (internal/dag/scheduler/node.go) -/
 def h_node_setStatus : Nat := 0x648579034e8932b1
 
+/-- hash of the normalised skeleton of eval (internal/dag/condition.go) -/
+def h_cond_Condition_eval : Nat := 0xdc138b4d1c550363
+
+/-- hash of the normalised skeleton of evalCondition (internal/dag/condition.go) -/
+def h_cond_evalCondition : Nat := 0x2cb580039a385f6e
+
+/-- hash of the normalised skeleton of EvalConditions (internal/dag/condition.go) -/
+def h_cond_EvalConditions : Nat := 0x42a2aeda70db84a4
+
 /-- hash of the normalised skeleton of finish (internal/dag/scheduler/node.go) -/
 def h_node_finish : Nat := 0x66b0b281098a44e2
 
